@@ -629,7 +629,7 @@ def run_history(ctx, h, acc):
                 def W(d):
                     # an operation of these histories needs a few thousand scheduler steps; a livelock in the code under
                     # test (seen: Retrieve re-trying one corrupt share for ever) must cost seconds, not the pump's 2M steps
-                    return rt.wait(d, max_steps=rt.steps + 150000)
+                    return rt.wait(d, max_steps=rt.steps + 60000)
                 registry = {}      # (seqnum, root_hash) -> content
                 snaps = []         # share-file snapshots taken before each publish
                 node = rnode = None
